@@ -16,7 +16,9 @@ PROP = {'level': 'proof',
                'file and a 1-based line of it; for the rule as found: divergence on the non-root cycle for every fuel. An additive layer '
                '(files whose reader fails / whose first Close fails) refines that model when no file fails, and for it: every open is '
                'followed by a close whatever fails, a read error / Close error is reported exactly as parser.go does and is explained '
-               '(file, 1-based $INCLUDE line, which file failed), no failure is swallowed by a successful parse. Model tied to the Go '
+               '(file, 1-based $INCLUDE line, which file failed), no failure is swallowed by a successful parse; its log is well nested per '
+               'handle on every outcome (a re-opened file of a RecursiveInclude is closed by its own close), closed exactly twice per '
+               'successful include, exactly once per handle on the path of a failure and for the root. Model tied to the Go '
                'parser by a differential run with an in-memory Opener and an oracle written from the property.',
  'level_note': 'Trusted: Lean kernel; the model as mirror of parser.go (see C16); the in-memory opener of the harness with its depth cap of '
                '200 open files (unbounded recursion is observed as DEPTH-EXCEEDED instead of a fatal stack overflow).',
@@ -25,4 +27,8 @@ PROP = {'level': 'proof',
                  'include depth below 200 (deeper legal chains are not generated)',
                  'I/O failures: a reader delivers its text with nil errors and fails on the following Read call (never together with data); '
                  'a failing Close fails on the first call on a handle; an Opener that fails for an existing file is the missing-file case',
+                 'an Opener that returns (nil, nil) makes parser.go:214 (`defer incFile.Close()` / `incFile.Name()`) panic - the Opener '
+                 'contract (non-nil File when err == nil) is assumed',
+                 'the open/close trace names files, not handles: where one name is open twice the trace is checked to be well nested under '
+                 'SOME reading; per-handle leaks are counted by the harness (HandleLeak for the in-memory opener, fds= for real files)',
                  '"every cycle is reported" is read as: when the depth-first walk in directive order reaches it; an earlier fault is reported instead']}
